@@ -94,9 +94,9 @@ U_C02_Long(zz) ==
 
 \* positioned fields, a later-declared one placed before an earlier one; state kept between two packs
 U_C02_Pos(zz) ==
-    {V1(<<MvField(IntF("a", 2, FALSE, "default"), [kind |-> "at", arg |-> SzConst(p1), ref |-> "innermost-pkt"]),
-          MvField(U1("b"), [kind |-> "at", arg |-> SzConst(p2), ref |-> r]), U1("c")>>, "full", FALSE) :
-        p1 \in {2, 3}, p2 \in {0, 1, 5}, r \in {"innermost-pkt", "begins"}}
+    {V1(<<MvField(IntF("a", 2, FALSE, "default"), [kind |-> "at", arg |-> SzConst(qa), ref |-> "innermost-pkt"]),
+          MvField(U1("b"), [kind |-> "at", arg |-> SzConst(qb), ref |-> r]), U1("c")>>, "full", FALSE) :
+        qa \in {2, 3}, qb \in {0, 1, 5}, r \in {"innermost-pkt", "begins"}}
     \cup {V1(<<U1("a"), MvField(DataF("d", SzConst(2)), [kind |-> "aligned", arg |-> SzConst(al), ref |-> "begins"]),
                MvField(U1("z"), [kind |-> "shift", arg |-> SzConst(sh), ref |-> "current-offset"]), EmF("tail")>>, "full", FALSE) :
               al \in {2, 4}, sh \in {0, 2}}
